@@ -2,7 +2,7 @@
    Model: Model/Parsers.v (dispatch through the case tables regenerated from the source).
    Specification: Model/Spec.v (canon_texts / ints_of / strings_of / descs_of / expr_sem). *)
 From Coq Require Import List NArith ZArith Bool.
-From BE Require Import Model.GoTypes Model.GoVal Model.Parsers Gen.TypeSwitchGen Proofs.ParsersProof.
+From BE Require Import Model.GoTypes Model.GoVal Model.Parsers Model.Index Model.Spec Gen.TypeSwitchGen Proofs.ParsersProof Proofs.DenoteProof.
 Import ListNotations.
 
 (* generated-table obligations: no type outside the modelled universe appears in any case list *)
@@ -34,7 +34,56 @@ Theorem C17_enum_range_exact : forall st e sp, (1 <= sp)%Z -> (st <= e)%Z ->
             exists k, (0 <= k)%Z /\ x = (st + k * sp)%Z /\ (x <= e)%Z.
 Proof. exact enum_range_exact. Qed.
 
+(* EXACTNESS, both directions, every well-formed value inside the modelled fragment (wf_val: elements of a
+   typed slice have the slice's element type; modelled / modelled_num: finite floats below 2^63 and decimal
+   texts the model of strconv covers -- see Proofs/DenoteProof.v for the exact predicates):
+   each parser either REJECTS (PErr) or yields EXACTLY the ids of what the representation-free
+   specification (Model/Spec.v) says the value denotes *)
+Theorem C17_common_value_exact : forall v, wf_val v -> modelled v ->
+  match canon_texts v with Some ts => common_parse_value v = POk (map PText ts) | None => common_parse_value v = PErr end.
+Proof. exact common_value_exact. Qed.
+Theorem C17_number_value_exact : forall v, wf_val v -> modelled_num v ->
+  match ints_of v with Some zs => number_parse_value v = POk (map (fun z => PNum (wrap_u64 z)) zs) | None => number_parse_value v = PErr end.
+Proof. exact number_value_exact. Qed.
+Theorem C17_strhash_value_exact : forall v, wf_val v ->
+  match strings_of v with Some ss => strhash_parse_value v = POk (map PText ss) | None => strhash_parse_value v = PErr end.
+Proof. exact strhash_value_exact. Qed.
+Theorem C17_numrange_value_exact : forall v, wf_val v ->
+  match descs_of v with Some zs => numrange_parse_value v = POk (map (fun z => PNum (wrap_u64 z)) zs) | None => numrange_parse_value v = PErr end.
+Proof. exact numrange_value_exact. Qed.
+
+(* accepted => matchable: on a default-container field the query side yields the same ids for the same
+   denotation (assign_sem), so assigning a denoted value hits what was indexed *)
+Theorem C17_value_side_is_spec : forall fd e, fd_cont fd = CDefault -> e_op e = OpEQ -> wf_val (e_val e) -> modelled_num (e_val e) ->
+  parse_value (fd_parser fd) (e_val e) = ans (option_map esem_ids (expr_sem fd e)).
+Proof. exact parse_value_expr_sem. Qed.
+Theorem C17_query_side_is_spec : forall fd v, fd_cont fd = CDefault -> wf_val v -> modelled_num v ->
+  match assign_sem fd v with
+  | Some q => parse_assign (fd_parser fd) v = POk (qsem_ids q)
+  | None => (fd_parser fd = PCommon -> forall n vs, v <> VList n vs) -> parse_assign (fd_parser fd) v = PErr end.
+Proof. exact parse_assign_assign_sem. Qed.
+
+(* the range container: >, <, between parse to exactly the operator's interval, or are rejected
+   (bounds of magnitude up to 2^62: small_bounds) *)
+Theorem C17_range_container_exact : forall fd e l r, fd_cont fd = CRange -> e_op e <> OpEQ ->
+  wf_val (e_val e) -> modelled_num (e_val e) -> ints_fit (e_val e) -> small_bounds (e_val e) ->
+  (parse_range (e_op e) true (e_val e) = POk (l, r) <->
+   expr_sem fd e = Some (ERange l (match e_op e with OpGT => r + 1 | _ => r end)))%Z.
+Proof. exact parse_range_ok_iff. Qed.
+Theorem C17_range_container_rejects : forall fd e, fd_cont fd = CRange -> e_op e <> OpEQ ->
+  wf_val (e_val e) -> modelled_num (e_val e) -> ints_fit (e_val e) -> small_bounds (e_val e) ->
+  (parse_range (e_op e) true (e_val e) = PErr <-> expr_sem fd e = None).
+Proof. exact parse_range_err_iff. Qed.
+
 Print Assumptions C17_tables_within_universe.
+Print Assumptions C17_common_value_exact.
+Print Assumptions C17_number_value_exact.
+Print Assumptions C17_strhash_value_exact.
+Print Assumptions C17_numrange_value_exact.
+Print Assumptions C17_value_side_is_spec.
+Print Assumptions C17_query_side_is_spec.
+Print Assumptions C17_range_container_exact.
+Print Assumptions C17_range_container_rejects.
 Print Assumptions C17_total.
 Print Assumptions C17_range_helpers_total.
 Print Assumptions C17_range_desc_refuses_bad_step.
